@@ -40,6 +40,27 @@ def normAxis (a : Nat) (v : Nat → Rat) : Rat := absR (v a)
 face area 1, cell volume `h0`) -/
 def uniqueFlux1d (h0 : Rat) (f : Nat → Rat) (g : Nat) : Rat := sumTo (g + 1) (fun j => h0 * f j)
 
+/-- thin grid (extent 1 in every direction but `a`): face `k` of axis `a` (flat number `offset a + k`, between cells
+`k` and `k+1`) carries `h_a · Σ_{j ≤ k} f_j` -/
+def uniqueFluxThin (shape : List Nat) (h : List Rat) (a : Nat) (f : Nat → Rat) (g : Nat) : Rat :=
+  sumTo (g - offset shape a + 1) (fun j => h.getD a 0 * f j)
+
+/-- decidable form of `Thin shape a` -/
+def thinB (shape : List Nat) (a : Nat) : Bool :=
+  decide (a < shape.length) && (List.range shape.length).all fun b => b == a || shape.getD b 0 == 1
+
+/-- exact check of a dual certificate `(p, g)` (hypotheses of `C05.potential_lower_bound`): on every face the mean of `g`
+is minus the difference quotient of `p`, and `g` lies in the Euclidean unit ball in every cell -/
+def certOK (shape : List Nat) (h : List Rat) (p : Nat → Rat) (g : Nat → Nat → Rat) : Bool :=
+  ((List.range (numFaces shape)).all fun k =>
+    decide (vol h * (1 / 2) * (g (conn shape k).1 (faceAxis shape k) + g (conn shape k).2 (faceAxis shape k)) =
+      -(area h (faceAxis shape k) * (p (conn shape k).2 - p (conn shape k).1)))) &&
+  ((List.range (numCells shape)).all fun c => decide (sumTo shape.length (fun a => g c a * g c a) ≤ 1))
+
+/-- the certified lower bound `Σ_c p_c · vol · f_c` -/
+def certValue (shape : List Nat) (h : List Rat) (f p : Nat → Rat) : Rat :=
+  sumTo (numCells shape) (fun c => p c * (vol h * f c))
+
 /-- `EMD.__call__` for a single-cell move of `value` by (`drow`, `dcol`) voxels: `cv2.EMD` returns the displacement
 length `√((dcol·dx)² + (drow·dy)²)` (total flow normalised to 1), rescaled by `integral · cell_volume`;
 returned here as the square of the result. -/
